@@ -154,7 +154,7 @@ def foreign_text_refused(cls: Const(CBitcoinAddress), s: Str):
     random strings are refused with CBitcoinAddressError (or parse to an address of this chain) - no
     other exception type"""
     option(bounded=300, chains=True)
-    raises(CBitcoinAddressError)
+    raises(CBitcoinAddressError, when=not ref_valid_text(CHAIN, s))
 
 
 # ---- generators ---------------------------------------------------------------------------
@@ -188,7 +188,11 @@ def _gen_roundtrip(rng):
 def _gen_foreign(rng):
     chain = rng.choice(list(CHAINS))
     r = rng.random()
-    if r < 0.35:
+    if r < 0.06:
+        # version-0 witness-script-hash text with non-zero padding bits under a correct checksum: not an address
+        from contracts.c11 import _nonzero_padding_with_valid_checksum
+        s = _nonzero_padding_with_valid_checksum(rng, CHAINS[chain]['HRP'])[1]
+    elif r < 0.35:
         s = ref_address_text(chain, rng.randrange(4), _rnd(rng, 20) if rng.random() < 0.7 else _rnd(rng, 32))
     elif r < 0.55:
         s = ref_segwit_encode(CHAINS[chain]['HRP'], rng.randint(1, 16), _rnd(rng, rng.choice([2, 20, 32, 40])))
@@ -206,6 +210,10 @@ def _gen_foreign(rng):
 def _gen_segwit_decode(rng):
     hrp = rng.choice(['bc', 'tb', 'bcrt'])
     r = rng.random()
+    if r < 0.08:
+        from contracts.c11 import _nonzero_padding_with_valid_checksum, _foreign_with_solved_checksum
+        hrp, s = _nonzero_padding_with_valid_checksum(rng, hrp) if rng.random() < 0.7 else _foreign_with_solved_checksum(rng)
+        return {'hrp': hrp, 'addr': s}
     if r < 0.5:
         s = ref_segwit_encode(rng.choice(['bc', 'tb', 'bcrt']), rng.choice([0, 0, 1, 16]),
                               _rnd(rng, rng.choice([2, 20, 32, 40, 33])))
